@@ -37,8 +37,13 @@ extern "C" void vf_thread_0() {
   vf_check(s->size() == cnt, 2);
   vf_check(s->empty() == (cnt == 0), 5);
   uint64_t seen[2] = {0, 0}; uint64_t it = 0;
+#ifdef VF_FINE   /* dev aid: one label per condition */
+  for (auto& v : *s) { vf_check(v < 64, 30); vf_check(!((seen[0] >> (v & 63)) & 1), 31); seen[0] |= 1ull << (v & 63); it++; if (it > VF_N + 2) break; }
+  vf_check(it == cnt, 32); vf_check((seen[0] & ~ref[0]) == 0, 33); vf_check((ref[0] & ~seen[0]) == 0, 34); vf_check(it <= cnt, 35); vf_check(it >= cnt, 36);
+#else
   for (auto& v : *s) { vf_check(v < 64 && !((seen[0] >> v) & 1), 3); seen[0] |= 1ull << (v & 63); it++; if (it > VF_N + 2) break; }
   vf_check(it == cnt && seen[0] == ref[0], 3);
+#endif
 #ifndef VF_NOFIND
   for (uint64_t k = 0; k < 64; ++k) { bool in = (ref[0] >> k) & 1; vf_check(s->contains(k) == in, 4); vf_check((s->find(k) != s->end()) == in, 4); }
 #endif
